@@ -197,11 +197,17 @@ func Encode(val interface{}, opts Options) ([]byte, error) {
 // EncodeInto is like Encode but uses a user-supplied buffer instead of allocating
 // a new one.
 func EncodeInto(buf *[]byte, val interface{}, opts Options) error {
+	old := len(*buf)
 	err := encodeIntoCheckRace(buf, val, opts)
 	if err != nil {
 		return err
 	}
-	*buf = encodeFinish(*buf, opts)
+	/* the post-passes (HTML escaping, UTF-8 correction) only apply to the bytes
+	 * appended by this call, what the caller already had in the buffer is kept as is */
+	if opts&(EscapeHTML|ValidateString) != 0 && old <= len(*buf) {
+		tail := encodeFinish((*buf)[old:], opts)
+		*buf = append((*buf)[:old], tail...)
+	}
 	return err
 }
 
